@@ -178,7 +178,8 @@ fn se_iter(sh: Shape, kind: u8) {
     if kind == 0 {
         let mut it = s.iter();
         while steps < n + 1 {
-            assert!(it.len() == n - if steps < n { steps } else { n }, "[C08] HashSet::iter length is not exact");
+            let rem = n - if steps < n { steps } else { n };
+            assert!(it.len() == rem && it.size_hint() == (rem, Some(rem)), "[C08] HashSet::iter len()/size_hint() is not exact");
             if let Some(v) = it.next() {
                 if *v == q {
                     seen += 1;
@@ -192,7 +193,8 @@ fn se_iter(sh: Shape, kind: u8) {
         {
             let mut it = s.drain();
             while steps < n + 1 {
-                assert!(it.len() == n - if steps < n { steps } else { n }, "[C08] HashSet::drain length is not exact");
+                let rem = n - if steps < n { steps } else { n };
+                assert!(it.len() == rem && it.size_hint() == (rem, Some(rem)), "[C08] HashSet::drain len()/size_hint() is not exact");
                 if let Some(v) = it.next() {
                     if v == q {
                         seen += 1;
@@ -206,7 +208,8 @@ fn se_iter(sh: Shape, kind: u8) {
     } else {
         let mut it = s.into_iter();
         while steps < n + 1 {
-            assert!(it.len() == n - if steps < n { steps } else { n }, "[C08] HashSet::into_iter length is not exact");
+            let rem = n - if steps < n { steps } else { n };
+            assert!(it.len() == rem && it.size_hint() == (rem, Some(rem)), "[C08] HashSet::into_iter len()/size_hint() is not exact");
             if let Some(v) = it.next() {
                 if v == q {
                     seen += 1;
